@@ -1872,3 +1872,172 @@ Proof.
   - intros l. destruct l; (eexists; split; [vm_compute; reflexivity|]; repeat split; try reflexivity; cbn; intros H; inversion H).
   - eexists. split; vm_compute; reflexivity.
 Qed.
+
+(* ------------------------------------------------------------------------------------ *)
+(* 11. The value chain of get_parameters_strategy                                        *)
+(* ------------------------------------------------------------------------------------ *)
+Lemma hex_roundtrip n : (n < 16)%N -> hex_val (hex_digit n) = n.
+Proof.
+  intros H.
+  assert (E : (n = 0 \/ n = 1 \/ n = 2 \/ n = 3 \/ n = 4 \/ n = 5 \/ n = 6 \/ n = 7 \/ n = 8 \/ n = 9 \/ n = 10 \/ n = 11 \/
+               n = 12 \/ n = 13 \/ n = 14 \/ n = 15)%N) by lia.
+  repeat (destruct E as [E|E]; [subst; reflexivity|]). subst; reflexivity.
+Qed.
+
+Lemma unquote_quote_byte b rest : (b < 256)%N ->
+  unquote_plus_bytes (quote_byte b ++ rest) = b :: unquote_plus_bytes rest.
+Proof.
+  intros Hb. unfold quote_byte.
+  destruct (quote_safe b) eqn:Hs.
+  - cbn [app unquote_plus_bytes].
+    destruct (b =? 43)%N eqn:E1; [apply N.eqb_eq in E1; subst; discriminate Hs|].
+    destruct (b =? 37)%N eqn:E2; [apply N.eqb_eq in E2; subst; discriminate Hs|]. reflexivity.
+  - destruct (b =? 32)%N eqn:E3.
+    + apply N.eqb_eq in E3; subst. reflexivity.
+    + cbn [app unquote_plus_bytes]. change (37 =? 43)%N with false. change (37 =? 37)%N with true. cbv iota.
+      rewrite !hex_roundtrip.
+      * f_equal. pose proof (N.div_mod' b 16). lia.
+      * apply N.mod_lt; lia.
+      * apply N.div_lt_upper_bound; lia.
+Qed.
+
+Lemma unquote_quote_bytes bs : Forall (fun b => (b < 256)%N) bs ->
+  unquote_plus_bytes (flat_map quote_byte bs) = bs.
+Proof.
+  induction 1 as [|b bs Hb _ IH]; [reflexivity|].
+  cbn [flat_map]. rewrite unquote_quote_byte by exact Hb. rewrite IH. reflexivity.
+Qed.
+
+Lemma utf8_c_bytes c : Forall (fun b => (b < 256)%N) (utf8_c c).
+Proof.
+  unfold utf8_c.
+  pose proof (N.mod_lt c 128 ltac:(lia)). pose proof (N.mod_lt c 64 ltac:(lia)).
+  pose proof (N.mod_lt (c / 64) 32 ltac:(lia)). pose proof (N.mod_lt (c / 64) 64 ltac:(lia)).
+  pose proof (N.mod_lt (c / 4096) 16 ltac:(lia)). pose proof (N.mod_lt (c / 4096) 64 ltac:(lia)).
+  pose proof (N.mod_lt (c / 262144) 8 ltac:(lia)).
+  destruct (c <? 128)%N; [|destruct (c <? 2048)%N; [|destruct (c <? 65536)%N]]; repeat constructor; lia.
+Qed.
+
+Lemma utf8_bytes s : Forall (fun b => (b < 256)%N) (utf8 s).
+Proof.
+  induction s as [|c s IH]; [constructor|]. unfold utf8 in *. cbn [flat_map].
+  apply Forall_app. split; [apply utf8_c_bytes|exact IH].
+Qed.
+
+(* what a reader of the path value gets back: the UTF-8 bytes of the generated string *)
+Lemma unquote_quote_plus s : unquote_plus_bytes (quote_plus s) = utf8 s.
+Proof. unfold quote_plus. apply unquote_quote_bytes, utf8_bytes. Qed.
+
+Lemma coerced_path_str s : coerced LPath (GStr s) (jsonify_val (quote_val (GStr s))) = true.
+Proof.
+  cbn [quote_val].
+  destruct (str_eqb s [46%N]) eqn:E1; [apply str_eqb_spec in E1; subst; reflexivity|].
+  destruct (str_eqb s [46; 46]%N) eqn:E2; [apply str_eqb_spec in E2; subst; reflexivity|].
+  cbn [jsonify_val coerced]. rewrite unquote_quote_plus. apply str_eqb_refl.
+Qed.
+
+Lemma coerced_path g : coerced LPath g (jsonify_val (quote_val g)) = true.
+Proof.
+  destruct g as [s|[|]| |z]; [apply coerced_path_str|reflexivity|reflexivity|reflexivity|cbn; apply Z.eqb_refl].
+Qed.
+Lemma coerced_query g : coerced LQuery g (jsonify_val g) = true.
+Proof. destruct g as [s|[|]| |z]; [cbn; apply str_eqb_refl|reflexivity|reflexivity|reflexivity|cbn; apply Z.eqb_refl]. Qed.
+Lemma coerced_header l g : is_header_loc l = true -> coerced l g (GStr (py_str g)) = true.
+Proof. destruct l; try discriminate; intros _; cbn [coerced]; apply str_eqb_refl. Qed.
+
+Lemma all_coerced_map l f c : (forall g, coerced l g (f g) = true) -> all_coerced l c (map_vals f c) = true.
+Proof.
+  intros Hf. induction c as [|[n g] c IH]; [reflexivity|].
+  cbn [map_vals map all_coerced fst snd]. rewrite str_eqb_refl, Hf. exact IH.
+Qed.
+
+Lemma map_vals_comp f g c : map_vals f (map_vals g c) = map_vals (fun x => f (g x)) c.
+Proof. unfold map_vals. rewrite map_map. reflexivity. Qed.
+
+(* a filter only removes draws: what passes is what came in *)
+Lemma filter_only_removes l c c' : apply_vstep (VFilter l) c = Some c' -> c' = c /\ forallb (entry_valid l) c = true.
+Proof. cbn [apply_vstep]. destruct (forallb (entry_valid l) c); intros H; inversion H; auto. Qed.
+
+(* the chain of the code, location by location, as one map over the generated container *)
+Definition chain_fun (l : ploc) (g : gval) : gval :=
+  match l with
+  | LHeader | LCookie => GStr (py_str g)
+  | LPath => jsonify_val (quote_val g)
+  | LQuery => jsonify_val g
+  end.
+Lemma value_chain_is_map l skip c c' :
+  run_vsteps (value_chain l skip) c = Some c' -> c' = map_vals (chain_fun l) c.
+Proof.
+  destruct l; cbn [value_chain run_vsteps].
+  - destruct (apply_vstep (VFilter LPath) c) as [c1|] eqn:E; [|discriminate].
+    apply filter_only_removes in E. destruct E as [-> _]. cbn [apply_vstep]. intros H; inversion H.
+    rewrite map_vals_comp. reflexivity.
+  - destruct (apply_vstep (VFilter LQuery) c) as [c1|] eqn:E; [|discriminate].
+    apply filter_only_removes in E. destruct E as [-> _]. cbn [apply_vstep]. intros H; inversion H. reflexivity.
+  - cbn [apply_vstep]. destruct skip; cbn [run_vsteps].
+    + intros H; inversion H; reflexivity.
+    + destruct (apply_vstep (VFilter LHeader) _) as [c1|] eqn:E; [|discriminate].
+      apply filter_only_removes in E. destruct E as [-> _]. intros H; inversion H; reflexivity.
+  - cbn [apply_vstep]. destruct skip; cbn [run_vsteps].
+    + intros H; inversion H; reflexivity.
+    + destruct (apply_vstep (VFilter LCookie) _) as [c1|] eqn:E; [|discriminate].
+      apply filter_only_removes in E. destruct E as [-> _]. intros H; inversion H; reflexivity.
+Qed.
+
+Lemma chain_fun_coerced l g : coerced l g (chain_fun l g) = true.
+Proof. destruct l; cbn [chain_fun]; [apply coerced_path|apply coerced_query|apply coerced_header; reflexivity|apply coerced_header; reflexivity]. Qed.
+
+(* every container that leaves the chain is the generated container up to the coercion of the location *)
+Lemma value_chain_preserves l skip c c' :
+  run_vsteps (value_chain l skip) c = Some c' -> all_coerced l c c' = true.
+Proof. intros H. apply value_chain_is_map in H. subst. apply all_coerced_map, chain_fun_coerced. Qed.
+
+(* header / cookie / query: a string value in the case is a generated value, character for character, so it is valid for
+   whatever the generated value was valid for; a non-string source is its str() / JSON text *)
+Lemma value_chain_strings_identical catp l skip c c' n s' :
+  l <> LPath -> run_vsteps (value_chain l skip) c = Some c' -> In (n, GStr s') c' ->
+  exists g, In (n, g) c /\ coerced l g (GStr s') = true /\
+            (forall s, g = GStr s -> s' = s /\ forall d, decl_accepts catp d s -> decl_accepts catp d s').
+Proof.
+  intros Hl H Hin. apply value_chain_is_map in H. subst c'.
+  unfold map_vals in Hin. apply in_map_iff in Hin. destruct Hin as [[n0 g] [Heq Hin]].
+  cbn [fst snd] in Heq. injection Heq as Hn Hg. subst n0.
+  exists g. split; [exact Hin|]. split; [rewrite <- Hg; apply chain_fun_coerced|].
+  intros s ->. assert (s' = s) as ->.
+  { destruct l; cbn [chain_fun jsonify_val py_str] in Hg; try congruence. }
+  split; [reflexivity|auto].
+Qed.
+
+(* the filters never let through a header value with a leading whitespace-class character *)
+Lemma header_entry_no_leading_space l n c s :
+  is_header_loc l = true -> entry_valid l (n, GStr (c :: s)) = true -> py_space c = false.
+Proof.
+  intros Hl H. destruct (py_space c) eqn:E; [|reflexivity].
+  destruct l; try discriminate Hl; unfold entry_valid, header_value_ok in H; cbn [fst snd] in H; rewrite E in H;
+    cbn [negb andb] in H; rewrite andb_false_r in H; cbn [andb] in H; discriminate H.
+Qed.
+
+(* regression sentinel: str.lstrip() between the serializer and the filter (seed C01_f) *)
+Lemma seeded_strip_refuted catp :
+  exists c', run_vsteps (seeded_value_chain LHeader false) c_vt7 = Some c' /\
+             run_vsteps (value_chain LHeader false) c_vt7 = None /\
+             all_coerced LHeader c_vt7 c' = false /\
+             decl_accepts catp d_min8 s_vt7 /\
+             forall n s', In (n, GStr s') c' -> ~ decl_accepts catp d_min8 s'.
+Proof.
+  eexists. split; [vm_compute; reflexivity|]. split; [vm_compute; reflexivity|]. split; [vm_compute; reflexivity|].
+  split; [split; [exact I|reflexivity]|].
+  intros n s' [H|[]]. inversion H; subst. intros [_ Hl]. vm_compute in Hl. discriminate.
+Qed.
+
+(* non-vacuity: values that do go through, in every location *)
+Lemma value_chain_examples :
+  run_vsteps (value_chain LHeader false) [([88; 45; 65]%N, GStr [97; 32; 98]%N); ([88; 45; 66]%N, GInt (-12)); ([88; 45; 67]%N, GBool true)]
+    = Some [([88; 45; 65]%N, GStr [97; 32; 98]%N); ([88; 45; 66]%N, GStr [45; 49; 50]%N); ([88; 45; 67]%N, GStr [84; 114; 117; 101]%N)] /\
+  run_vsteps (value_chain LPath false) [([105]%N, GStr [97; 32; 233; 46]%N); ([107]%N, GNull)]
+    = Some [([105]%N, GStr [97; 43; 37; 67; 51; 37; 65; 57; 46]%N); ([107]%N, GStr [110; 117; 108; 108]%N)] /\
+  run_vsteps (value_chain LPath false) [([105]%N, GStr [97; 47]%N)] = None /\
+  run_vsteps (value_chain LQuery false) [([113]%N, GStr [11; 97]%N); ([114]%N, GBool false)]
+    = Some [([113]%N, GStr [11; 97]%N); ([114]%N, GStr [102; 97; 108; 115; 101]%N)] /\
+  run_vsteps (value_chain LHeader true) c_vt7 = Some c_vt7.
+Proof. repeat split; vm_compute; reflexivity. Qed.
